@@ -8,6 +8,7 @@ import (
 	"errors"
 	"fmt"
 	"io"
+	"sync"
 	"sync/atomic"
 
 	"github.com/hashicorp/go-hclog"
@@ -46,6 +47,13 @@ var _ raft.MonotonicLogStore = &LogStore{}
 type LogStore struct {
 	checksum    uint64 // accessed atomically
 	sumStartIdx uint64 // accessed atomically
+
+	// sumMu makes (checksum, sumStartIdx) change as a pair: raft compacts the log
+	// (DeleteRange) on a different goroutine than the one that appends. sumGen
+	// counts the resets done by DeleteRange so that a StoreLogs which read the
+	// pair before a reset does not publish a sum derived from it afterwards.
+	sumMu  sync.Mutex
+	sumGen uint64
 
 	s raft.LogStore
 
@@ -173,8 +181,11 @@ func (s *LogStore) StoreLogs(logs []*raft.Log) error {
 
 	// Maintain a local copy of the checksum and sumStartIdx, we'll update the
 	// state only once we know all these entries were stored.
+	s.sumMu.Lock()
 	cs := atomic.LoadUint64(&s.checksum)
 	startIdx := atomic.LoadUint64(&s.sumStartIdx)
+	gen := s.sumGen
+	s.sumMu.Unlock()
 	var triggeredReports []VerificationReport
 
 	if s.checkpointFn != nil {
@@ -199,8 +210,16 @@ func (s *LogStore) StoreLogs(logs []*raft.Log) error {
 	}
 
 	// Update the checksum state now logs are committed.
+	s.sumMu.Lock()
+	if s.sumGen != gen {
+		// A concurrent DeleteRange reset the sum after we read it: what we
+		// computed continues a sum that no longer applies. Start over with the
+		// next append.
+		cs, startIdx = 0, 0
+	}
 	atomic.StoreUint64(&s.checksum, cs)
 	atomic.StoreUint64(&s.sumStartIdx, startIdx)
+	s.sumMu.Unlock()
 	if len(triggeredReports) > 0 {
 		s.metrics.IncrementCounter("checkpoints_written", uint64(len(triggeredReports)))
 	}
@@ -233,10 +252,13 @@ func (s *LogStore) DeleteRange(min uint64, max uint64) error {
 	// (e.g. a conflicting suffix was truncated and is about to be re-appended).
 	// Start over: a written sum over a different range than the leader's is
 	// ignored by the verifier, whereas a stale one is reported as corruption.
+	s.sumMu.Lock()
 	if startIdx := atomic.LoadUint64(&s.sumStartIdx); startIdx != 0 && max >= startIdx {
 		atomic.StoreUint64(&s.checksum, 0)
 		atomic.StoreUint64(&s.sumStartIdx, 0)
+		s.sumGen++
 	}
+	s.sumMu.Unlock()
 	return nil
 }
 
